@@ -1,5 +1,14 @@
-(* C15 — executable model of etcd/raft with Config.PreVote = true (CheckQuorum off), fixed
-   membership.  No proofs in this file.
+(* C15 — executable model of etcd/raft with Config.PreVote = true, fixed membership.  No proofs in
+   this file.
+
+   Config.CheckQuorum is covered ANGELICALLY: its two effects are choices of the environment,
+     - a leader that finds no active quorum on a tick steps down (event [PvStepDown]:
+       becomeFollower(Term, None); raft.go tickHeartbeat -> MsgCheckQuorum -> stepLeader);
+     - a node inside its leader lease ignores a MsgVote/MsgPreVote of a higher term altogether
+       (raft.go Step, "inLease"): the message is simply not delivered (the validator accepts the
+       no-op [PvTick] for such a delivery),
+   so the model says nothing about WHEN they happen (no election-elapsed clock, no RecentActive
+   flags): safety is proved for every choice; liveness of CheckQuorum is not covered.
 
    A pre-candidate (raft.go becomePreCandidate) keeps its term and its vote: it is modelled as the
    underlying node of RaftModel.v in role Follower plus the flag [p_pre]; its tracker.Votes hold
@@ -43,7 +52,8 @@ Inductive pevent : Type :=
 | PvPropose (payload : nat)
 | PvRecv (m : pmsg)
 | PvRestart
-| PvTick.
+| PvTick
+| PvStepDown.                   (* Config.CheckQuorum: a tick on which the leader finds no active quorum *)
 
 Section NodePV.
   Variables c0 c1 : list nat.
@@ -81,6 +91,11 @@ Section NodePV.
     | PvPropose p => ((propose p n, pre), [])
     | PvRestart => ((restart id n, false), [])
     | PvTick => (st, [])
+    | PvStepDown =>
+        match n_role n with
+        | Leader => ((become_follower id (n_term n) None n, false), [])
+        | _ => (st, [])
+        end
     | PvRecv (PB m) =>
         if m_term m <? n_term n then
           (* a message of a lower term *)
